@@ -106,6 +106,13 @@ impl VHDLServer {
 
     fn reload_project(&mut self) {
         let config = self.load_config();
+        if self.severity_map != *config.severities() {
+            // The severities that were published are stale.
+            // Forget the cached diagnostics (but not their files) so that they are published again.
+            for cached_diagnostics in self.diagnostic_cache.values_mut() {
+                cached_diagnostics.clear();
+            }
+        }
         self.severity_map = *config.severities();
         self.case_transform = config.preferred_case();
 
